@@ -1186,3 +1186,34 @@ func gxRejecting(r *rng) *GX {
 	}
 	return buildGX(r, o)
 }
+
+// mkWrap[T] gives many distinct types with nested pointers: Make resolves pointer types lazily (at draw time),
+// so the first use of each of them exercises whatever Make caches per type.
+type mkWrap[T any] struct {
+	P *T
+	Q *[]T
+	R **T
+}
+
+var mkFresh = []func() *GX{
+	func() *GX { return mkGX[mkWrap[int8]]("mkWrap[int8]") },
+	func() *GX { return mkGX[mkWrap[int16]]("mkWrap[int16]") },
+	func() *GX { return mkGX[mkWrap[int32]]("mkWrap[int32]") },
+	func() *GX { return mkGX[mkWrap[uint8]]("mkWrap[uint8]") },
+	func() *GX { return mkGX[mkWrap[uint16]]("mkWrap[uint16]") },
+	func() *GX { return mkGX[mkWrap[uint32]]("mkWrap[uint32]") },
+	func() *GX { return mkGX[mkWrap[bool]]("mkWrap[bool]") },
+	func() *GX { return mkGX[mkWrap[string]]("mkWrap[string]") },
+	func() *GX { return mkGX[mkWrap[float32]]("mkWrap[float32]") },
+	func() *GX { return mkGX[mkWrap[mkPair]]("mkWrap[mkPair]") },
+	func() *GX { return mkGX[mkWrap[mkNamedInt]]("mkWrap[mkNamedInt]") },
+	func() *GX { return mkGX[mkWrap[mkWrap[int8]]]("mkWrap[mkWrap[int8]]") },
+	func() *GX { return mkGX[mkWrap[mkWrap[bool]]]("mkWrap[mkWrap[bool]]") },
+	func() *GX { return mkGX[mkWrap[[2]uint8]]("mkWrap[[2]uint8]") },
+	func() *GX { return mkGX[mkWrap[map[int8]bool]]("mkWrap[map[int8]bool]") },
+	func() *GX { return mkGX[mkWrap[*mkPair]]("mkWrap[*mkPair]") },
+	func() *GX { return mkGX[*mkWrap[uint64]]("*mkWrap[uint64]") },
+	func() *GX { return mkGX[[]mkWrap[int64]]("[]mkWrap[int64]") },
+	func() *GX { return mkGX[map[uint8]mkWrap[uint]]("map[uint8]mkWrap[uint]") },
+	func() *GX { return mkGX[mkWrap[mkWrap[mkWrap[uint8]]]]("mkWrap[mkWrap[mkWrap[uint8]]]") },
+}
